@@ -725,6 +725,20 @@ fn system_zone_setup(per_run_dir: &std::path::Path) {
         }
         // Only this thread exists in the process at this point.
         std::env::set_var("TZ", &file);
+        // jiff caches the system zone for five minutes of its monotonic clock
+        // and offers no way to reset that cache. So that what a run sees does
+        // not depend on what earlier runs of this process did to the clock,
+        // the zone is detected once, now, under a simulated clock fifty years
+        // ahead: the cached entry then outlives every run (simulated clocks
+        // restart at zero, the real one never gets there).
+        sim::init_once();
+        sim::with_rt(|rt| {
+            rt.reset(Policy::Random { stick: 0 }, 0, vec![]);
+            rt.max_steps = u64::MAX;
+        });
+        sim::advance_clock(50 * 365 * 86_400 * 1_000_000_000);
+        let _ = TimeZone::try_system();
+        sim::with_rt(|rt| rt.active = false);
     });
 }
 
